@@ -449,6 +449,12 @@ pub struct Scanner<'input, T> {
     /// [ : foo ] # { null: "foo" }
     /// ```
     flow_mapping_started: bool,
+    /// For each open flow collection: whether it is a flow mapping (`{`) rather than a flow
+    /// sequence (`[`), and the value [`Self::flow_mapping_started`] had when it was opened.
+    ///
+    /// `flow_mapping_started` falls back to the former when an entry of the collection ends and to
+    /// the latter when the collection itself ends.
+    flow_mapping_levels: Vec<(bool, bool)>,
     /// An array of states, representing whether flow sequences have implicit mappings.
     ///
     /// When a flow mapping is possible (when encountering the first `[` or a `,` in a sequence),
@@ -516,6 +522,7 @@ impl<'input, T: Input> Scanner<'input, T> {
             token_available: false,
             leading_whitespace: true,
             flow_mapping_started: false,
+            flow_mapping_levels: vec![],
             implicit_flow_mapping_states: vec![],
 
             buf_leading_break: String::new(),
@@ -1395,9 +1402,14 @@ impl<'input, T: Input> Scanner<'input, T> {
         let start_mark = self.mark;
         self.skip_non_blank();
 
+        self.flow_mapping_levels.push((
+            tok == TokenType::FlowMappingStart,
+            self.flow_mapping_started,
+        ));
         if tok == TokenType::FlowMappingStart {
             self.flow_mapping_started = true;
         } else {
+            self.flow_mapping_started = false;
             self.implicit_flow_mapping_states
                 .push(ImplicitMappingState::Possible);
         }
@@ -1420,6 +1432,11 @@ impl<'input, T: Input> Scanner<'input, T> {
             // We are out exiting the flow sequence, nesting goes down 1 level.
             self.implicit_flow_mapping_states.pop();
         }
+        // We are back in the enclosing collection, where we were when this one was opened.
+        self.flow_mapping_started = self
+            .flow_mapping_levels
+            .pop()
+            .is_some_and(|(_, outer)| outer);
 
         let start_mark = self.mark;
         self.skip_non_blank();
@@ -1445,6 +1462,11 @@ impl<'input, T: Input> Scanner<'input, T> {
         self.allow_simple_key();
 
         self.end_implicit_mapping(self.mark);
+        // An explicit key (`?`) only concerns the entry that just ended.
+        self.flow_mapping_started = self
+            .flow_mapping_levels
+            .last()
+            .is_some_and(|(is_mapping, _)| *is_mapping);
 
         let start_mark = self.mark;
         self.skip_non_blank();
